@@ -9,7 +9,7 @@ def register(pid, category, text, note, technique, design_ref):
     CHECKS[pid] = dict(category=category, text=text, note=note, technique=technique, design_ref=design_ref)
 
 register("C20", "exploration",
- "Generated stage graphs (valid by construction + injected duplicate/self/unknown/cycle defects) judged by an independent validator and a permutation/order check of topological_sort; grammar-generated, raw-text, deep-nesting and atheris-fuzzed expressions judged by 'returns or raises ExpressionError, context unchanged, callable never invoked' plus a truthiness differential against Python eval. Random search: absence is not established.",
+ "Generated stage graphs (valid by construction + injected duplicate/self/unknown/cycle defects) judged by an independent validator and a permutation/order check of topological_sort; grammar-generated, raw-text, deep-nesting and atheris-fuzzed expressions judged by 'returns or raises ExpressionError, context unchanged, callable never invoked' (a truthiness differential against Python eval is reported as an observation class only). Random search: absence is not established.",
  "Trusts CPython's ast/eval for the differential; contexts are JSON values plus one callable sentinel; atheris campaign only approximately seed-reproducible.",
  "Hypothesis generators + atheris coverage-guided fuzzing against reference validator / totality oracle / eval differential",
  "DESIGN.md section 3 C20")
@@ -26,7 +26,7 @@ register("C03", "exploration",
  "Hypothesis-generated DAGs x schedules x injected StartStage, invariant over the execution history checked by a reference join model",
  "DESIGN.md section 3 C03")
 register("C05", "exploration",
- "Generated workflows emphasising halting failures beside running siblings, early-firing joins, synthetic before/after children, mutex, deferred choice, gates and jump loops are driven under generated schedules (with duplicate StartStage injections) until nothing is deliverable; at that quiescent point the workflow must be final or explicitly waiting, SUCCEEDED implies all top-level stages continuable, a TERMINAL stage implies a failed workflow, nothing is left RUNNING, DLQ empty. Bounded liveness by exhaustive delivery; random search over specs and schedules.",
+ "Generated workflows emphasising halting failures beside running siblings, early-firing joins, synthetic before/after children, mutex, deferred choice, gates and jump loops are driven under generated schedules (with duplicate StartStage injections) until nothing is deliverable; at that quiescent point the workflow must be final or explicitly waiting, SUCCEEDED implies all top-level stages continuable, a TERMINAL stage implies a failed workflow, nothing is left RUNNING (dead-lettered messages are counted, not asserted). An operator pause before every delivery position of 10 corpus workflows is judged at quiescence, resumed and judged again. Bounded liveness by exhaustive delivery; random search over specs and schedules.",
  "Liveness is bounded liveness under the fairness rule (DESIGN 2.5); single worker; SQLite only.",
  "Hypothesis-generated specs x schedules, validity predicate at quiescence",
  "DESIGN.md section 3 C05")
@@ -37,7 +37,7 @@ register("C06", "exploration",
  "DESIGN.md section 3 C06")
 
 register("C14", "exploration",
- "A FIFO grid over k transient failures (forever, 0..13) x context_update on/off x how the error is raised x task position x chain/join placement, plus Hypothesis-drawn shuffled schedules, judged by a retry model: attempt n+1 sees the progress of failure n, poll context is kept, k<=3 succeeds after exactly k+1 executions, 'forever' is TERMINAL within limit+1 executions and a model-derived step bound. Grid enumerated; schedules random.",
+ "A FIFO grid over k transient failures (forever, 0..13) x context_update on/off x how the error is raised x task position x chain/join placement, plus Hypothesis-drawn shuffled schedules, judged by a retry model: attempt n+1 sees the progress of failure n, poll context is kept, k<=3 succeeds after exactly k+1 executions, 'forever' is TERMINAL within limit+1 executions and a model-derived step bound; at every commit point of the FIFO run a queued retry implies the stored progress of its failures. Grid enumerated; schedules random.",
  "limit = Message.max_attempts default (10); 4<=k<=limit accepted either way; delays fast-forwarded by rewriting deliver_at; SQLite only.",
  "enumerated grid + Hypothesis schedules against a reference retry model",
  "DESIGN.md section 3 C14")
@@ -52,14 +52,14 @@ register("C16", "exploration",
  "Hypothesis-generated DAGs x schedules, reference data-visibility model over the execution ledger; permutation metamorphic test for reducers",
  "DESIGN.md section 3 C16")
 register("C17", "exploration",
- "A cancel is injected before every delivery position of FIFO and two hold-back schedules of 25 fixed specs, and at random positions of Hypothesis-drawn (spec, schedule) pairs; with t = the step at which the cancel flag became durable: no task executes after t, the workflow ends final, CANCELED unless in effect finished (or TERMINAL already recorded), no stage left NOT_STARTED/RUNNING/SUSPENDED/PAUSED, stages with outstanding work at t end CANCELED.",
+ "A cancel is injected before every delivery position of FIFO and two hold-back schedules of 25 fixed specs, and at random positions of Hypothesis-drawn (spec, schedule) pairs; with t = the step at which the cancel flag became durable: no task executes after t, the workflow ends final, CANCELED unless in effect finished (or TERMINAL already recorded), no stage left NOT_STARTED/RUNNING/SUSPENDED/PAUSED, stages with outstanding work at t end CANCELED. Also: CancelWorkflow interleaved with StartWorkflow at statement level (all schedules within a pre-emption bound), and a cancel arriving on a workflow the operator paused at every delivery position.",
  "'Outstanding work' is computed from the ledger and the behaviour scripts; synthetic children's final statuses are not judged; single worker; SQLite only.",
  "exhaustive cancel-position sweep + Hypothesis specs x schedules, invariant over the history",
  "DESIGN.md section 3 C17")
 
 register("C01", "fault_enumeration",
  "For every explored spec (core corpus + Hypothesis-drawn DAG / loop / early-join specs) EVERY commit point of its FIFO run is taken as a crash state (the durable bytes after that commit; interval with a task in flight: external effect absent and present), the engine is restarted from it (all in-memory state dropped), locks lapse, one recovery sweep runs and the queue is drained; outcome signature, per-task execution counts (+1 only for the in-flight task), upstream data seen, queue/DLQ emptiness and no half-started residue are compared with the uninterrupted run. Thorough tier adds every pair of successive crashes (second crash at every commit of the recovery run) for 10 corpus specs. The crash index is enumerated; specs are sampled.",
- "SQLite's atomic commit is trusted (the state after a kill between commits i and i+1 is commit i's bytes; no torn writes); restart resets the engine singletons the harness knows of; post-crash delivery is FIFO; SQLite only.",
+ "SQLite's atomic commit is trusted (the state after a kill between commits i and i+1 is commit i's bytes; no torn writes); restart resets the engine singletons the harness knows of; post-crash delivery is FIFO and, for the corpus workflows, 4 fixed non-FIFO orders of the first deliveries; SQLite only.",
  "crash-point enumeration over generated workloads (commit-hook snapshots + restart), differential against the uninterrupted run",
  "DESIGN.md section 3 C01")
 register("C13", "fault_enumeration",
@@ -74,13 +74,13 @@ register("C10", "exploration",
  "exhaustive sweep-position enumeration + Hypothesis specs x schedules, differential against the sweep-free run; crash-state metamorphic relation (recover x1 == recover x2)",
  "DESIGN.md section 3 C10")
 register("C12", "exploration",
- "Generated workflows (success, failures, skip, cancel, loops, gate+signal) are run crash-free under generated schedules with the event store in the workflow database; then (1) the replayed status of the workflow and of every entity whose last durable change came from a regular lifecycle step is compared with the store, (2) rebuild(as_of=s) is compared with an independent fold of the events <= s for EVERY prefix, (3) for EVERY snapshot position p the snapshot+tail rebuild (and as-of queries at/after p) is compared with the snapshot-free rebuild.",
- "The fold oracle is an independent re-implementation of the documented event semantics; timestamps not restored by snapshots are not compared; crash-free runs; same-database event store.",
+ "Generated workflows (success, failures, skip, cancel, loops, gate+signal) are run crash-free under generated schedules with the event store in the workflow database; then (1) the replayed status of the workflow and of every entity whose last durable change came from a regular lifecycle step is compared with the store, (2) rebuild(as_of=s) is compared with an independent fold of the events <= s for EVERY prefix, (3) for EVERY snapshot position p the snapshot+tail rebuild (and as-of queries at/after p) is compared with the snapshot-free rebuild; a cancel is additionally injected before every delivery position of 9 workflows with the fan-out delivered in order and with one message type held back.",
+ "The fold oracle is an independent re-implementation of the documented event semantics; task-level skips leave no event by the engine's design and are not compared; crash-free runs; same-database event store.",
  "Hypothesis specs x schedules; per run exhaustive prefix and snapshot-position enumeration against a reference fold / round-trip",
  "DESIGN.md section 3 C12")
 
 register("C09", "exploration",
- "(a) Hypothesis RuleBasedStateMachine over the in-memory duplicate filter (mark_seen / hydrate / reset / maybe_seen, drawn sizes and false-positive rates, arbitrary id strings) against a set model, judged after every step; (b) workflows run with every ack withheld, each handled message redelivered at later points in the same process, after a forced rotation, after a process restart and to a peer worker hydrated earlier, negative-cache option off and on: a message whose processed record is durable must not reach its handler or execute a task, and the outcome equals the redelivery-free run.",
+ "(a) Hypothesis RuleBasedStateMachine over the in-memory duplicate filter (mark_seen / hydrate / reset / maybe_seen, drawn sizes and false-positive rates, arbitrary id strings) against a set model, judged after every step; (b) workflows run with every ack withheld, each handled message redelivered at later points in the same process, after a forced rotation, after a rotation by age inside a handler, after a process restart, to a peer worker hydrated earlier, after the retention sweep ran on a record still inside the retention window, and after the handler failed behind its own commit, negative-cache option off and on: a message whose processed record is durable must not reach its handler or execute a task, and the outcome equals the redelivery-free run.",
  "Peer worker modelled by swapping the module-global filter; peer + negative-cache-on excluded (documented single-writer precondition); SQLite only.",
  "Hypothesis stateful machine vs. set model + generated redelivery histories with handler-invocation oracle",
  "DESIGN.md section 3 C09")
@@ -97,13 +97,13 @@ register("C08", "exploration",
  "DESIGN.md section 3 C08")
 
 register("C18", "exploration",
- "For 4 gate workflows a persistent and a transient signal is injected before EVERY delivery position of the FIFO run and of a SignalStage-hold-back schedule, and at drawn positions with drawn payloads under Hypothesis schedules; every sampled (thorough: every) crash point of the signalled and un-signalled run is recovered. Persistent: gate task runs exactly twice, second run sees name+payload, gate and workflow finish, buffer empty; transient: effective iff the gate was durably SUSPENDED when the handler ran, else no effect; no signal: gate stays SUSPENDED across restart and recovery.",
- "The SignalStage-vs-suspending-RunTask statement-level interleaving is not covered in this revision (single worker); one signal per gate; SQLite only.",
+ "For 10 gate workflows (incl. gates behind a retry loop and as a forward-jump target) a persistent and a transient signal is injected before EVERY delivery position of the FIFO run and of a SignalStage-hold-back schedule, and at drawn positions with drawn payloads under Hypothesis schedules; every sampled (thorough: every) crash point of the signalled and un-signalled run is recovered. Persistent: gate task runs exactly twice, second run sees name+payload, gate and workflow finish, buffer empty; transient: effective iff the gate was durably SUSPENDED when the handler ran, else no effect; no signal: gate stays SUSPENDED across restart and recovery. Further shards: a gate suspending twice with two persistent signals, a gate re-armed by a loop / operator restart needing a signal of its own, a gate that is a declared before-stage beside a finishing sibling, and the SignalStage handler interleaved at statement level with the suspending RunTask, StartStage and JumpToStage.",
+ "Statement-level interleavings are explored within a pre-emption bound for fixed scenarios (shared with C07); SQLite only.",
  "exhaustive signal-position sweep + Hypothesis schedules + crash-point enumeration, reference outcome per signal kind",
  "DESIGN.md section 3 C18")
 
 register("C04", "exploration",
- "Seven racing-start scenarios (AND / first-of / quorum joins with 2-3 simultaneous StartStage messages, duplicated StartStage of an initial stage, first-of / quorum joins whose late branch completes while the join starts) are executed by 2-3 workers whose interleaving the harness owns at SQL-statement / commit granularity: ALL schedules with <= P pre-emptions (P=2 for 2 workers, 1 for 3; thorough 3/2) plus random deeper ones, then a sequential drain; exactly one start, one plan (one StartTask), one execution per task, one downstream start, SUCCEEDED.",
+ "Thirteen racing-start scenarios (AND / first-of / quorum joins with 2-3 simultaneous StartStage messages, duplicated StartStage of an initial stage, first-of / quorum joins whose late branch completes while the join starts) are executed by 2-3 workers whose interleaving the harness owns at SQL-statement / commit granularity: ALL schedules with <= P pre-emptions (P=2 for 2 workers, 1 for 3; thorough 3/2) plus random deeper ones, then a sequential drain in FIFO order and in one other order; exactly one start, one plan (one StartTask), one execution per task, one downstream start, SUCCEEDED.",
  "Shared in-memory connection with the baton never moving inside a transaction = statement-level interleaving under SQLite's single-writer semantics; SQLITE_BUSY outcomes and pre-emption inside C code are out of reach; bounded by the pre-emption bound.",
  "bounded-exhaustive schedule enumeration (pre-emption bounding) + random schedules over a harness-owned scheduler, invariant over the audit/ledger",
  "DESIGN.md section 3 C04")
